@@ -15,7 +15,7 @@ def design(work, off=None, name="design", invariants=("HeaderAgreement", "Portab
     return vlib.tlc(os.path.join(work, name), "Chain", cfg, workers=16, timeout=1200, extra=["-coverage", "1"] if off is None else [])
 
 
-def run(pid, tier, own, what, guards_needed):
+def run(pid, tier, own, what, guards_needed, extra_stage=None):
     t0 = time.time()
     sd = vlib.seed()
     v = vlib.Verdict(pid)
@@ -53,8 +53,9 @@ def run(pid, tier, own, what, guards_needed):
         for key, items in sorted(classes.items()):
             v.violation(key, "%s (%d recorded line(s); first: %s)" % (what[key.split(":")[0]], len(items), json.dumps(brief(items[0]))[:700]), {"line": items[0]})
         heights = [x for x in recs if x["kind"] == "height"]
-        if not heights or not any(x["kind"] == "sync" for x in recs):
+        if (not heights or not any(x["kind"] == "sync" for x in recs)) and not v.violations and not v.known:
             raise vlib.Infra("multi-node driver produced no heights / no sync: dead driver")
+        extra = extra_stage(v, work, tier, sd) if extra_stage else {}
         cov = r.coverage()
         coverage = {"states": r.distinct, "transitions": r.generated, "depth": r.depth, "exhaustive": True,
                     "constants": {"nodes": 3, "blocks": 2, "heights": 3, "paths": 6},
@@ -65,12 +66,14 @@ def run(pid, tier, own, what, guards_needed):
                     "coverage_by_action": {k: list(x) for k, x in cov.items()},
                     "violation_classes": {k: len(x) for k, x in classes.items()}, "known_findings_reproduced": [k for k, _ in v.known],
                     "samples": [brief(heights[0])]}
+        coverage.update(extra)
         vlib.write_evidence(pid, tier, "model_checking", coverage, time.time() - t0, len(v.violations),
                             ["all nodes run in one OS process; the process-wide block cache is purged (verif hook) where a real deployment has separate processes",
                              "goroutine schedules of the parallel tree commit and the indexer are sampled (one run per seed), not enumerated",
                              "Chain.tla is a design-level model; the execution schedule over paths is fixed in the driver (every path at every height), not generated from the spec"])
-        print("%s %s: design %d states; %d heights x 8 paths, %d synced heights, %d rejections validated by TLC; classes %s"
-              % (pid, tier, r.distinct, len(heights), coverage["sync_heights"], coverage["rejections"], {k: len(x) for k, x in classes.items()}))
+        print("%s %s: design %d states; %d heights x 8 paths, %d synced heights, %d rejections validated by TLC; classes %s%s"
+              % (pid, tier, r.distinct, len(heights), coverage["sync_heights"], coverage["rejections"], {k: len(x) for k, x in classes.items()},
+                 ("; mempool: %d real operations recomputed by TLC, classes %s" % (extra["mempool_operations_validated"], extra["mempool_violation_classes"])) if extra else ""))
         return v.exit_code()
     finally:
         shutil.rmtree(work, ignore_errors=True)
